@@ -272,7 +272,10 @@ def run(ctx):
                 has_int = any(a.get("k") == "bin" and a["op"] == "Eq" and pol and "TransitionType::Internal" in (hirq.def_path(a["r"]) or "") for a, pol in ats)
                 has_cmp = any(pol and is_call(a, ALG + "isCompoundState") and is_field_of(a["a"][0], "source") for a, pol in ats)
                 asg = [x for x in hirq.walk(iff[0]["t"]) if x.get("k") == "assign" and is_field_of(x["r"], "source")]
-                ok = has_int and has_cmp and len(asg) == 1
+                # statement form (`domain = t.source;`) or expression form (`let domain = if .. { t.source } ..`)
+                tb = peel(iff[0]["t"], NO_T)
+                tail = peel(tb["tail"], NO_T) if tb.get("k") == "block" and "tail" in tb and not tb.get("st") else (tb if tb.get("k") != "block" else None)
+                ok = has_int and has_cmp and (len(asg) == 1 or (tail is not None and is_field_of(tail, "source")))
             ctx.ob("R01.4", site_key(fn, "internal transition keeps the source as domain"), ok, line_of(c),
                    "domain = t.source iff type == Internal && isCompoundState(t.source) && all targets descend from source")
 
